@@ -192,7 +192,37 @@ NOTE_REPLACEMENTS = {
             "That the model's UTF-8 decoder is CPython's is by correspondence (every schedule); kernel scheduling and real timing are "
             "not modelled (real child processes are run as well)."),
 }
+# Session 3.
+ADDENDA3 = {
+    "C02": "Session 3: honest_chain_verifies / honestCheck_sound now hold for any number of functionaries per step and any threshold "
+           "(the succeeds-if half at pipeline level); wherever their hypotheses hold on a generated world the prediction must be the "
+           "implementation's result. Double replay, one gpg functionary with two subkey links beside a replayed link, a key store "
+           "that spells a gpg id in upper case, validly signed ill-formed links.",
+    "C03": "Session 3: a family over verify_all_item_rules (several items, both rule lists, shared paths) against the Lean "
+           "verifyAllItemRules (driver op all_item_rules); prefixes written with backslashes.",
+    "C04": "Session 3: C11_run_link_is_loaded; line-ending-only tamper; gpg key ids in other spellings and keys with signing subkeys; "
+           "kinds of change and recording option sets are cycled through in every run.",
+    "C05": "Session 3: honest_chain_verifies covers agreeing groups of any size (see C02); dissent by hash records that share no "
+           "algorithm / are empty / carry one digest more; kinds of dissent and alias spellings cycled through.",
+    "C06": "Session 3: honestCheck_sound covers delegated steps at every depth (recursive decision procedure, induction on the "
+           "budget): it predicts summary link and inspection trace of honest trees, compared with the implementation wherever it "
+           "applies; step-less delegated layouts; sibling steps 'pkg' / 'pkg.deb'; every defect kind in every run.",
+    "C07": "Session 3: accepted implies every inspection of every layout in the tree ran exactly once; honestCheck_sound predicts the "
+           "order of the commands across the tree; step-less delegated layouts; every failing earlier stage, at the root and inside "
+           "a delegated layout, in every run.",
+    "C11": "Session 3: run_path_is_tried / loadStepLinks_finds / C11_run_link_is_loaded (the file a run wrote - under the key's id or a "
+           "signing subkey's - is among the links loaded for its step); honest_chain_verifies covers links filed under a subkey's id, "
+           "several functionaries, delegated steps; output split inside a character on both streams.",
+    "C18": "Session 3: a share of every family runs the front end as a child process, in both spellings (the console-script wrapper "
+           "generated from [project.scripts] of the current pyproject.toml, and python -m); every variant of every family occurs in "
+           "every run.",
+}
+NOTE_REPLACEMENTS["C11"] = (NOTE_REPLACEMENTS["C11"][0],
+                            "Honest-chain acceptance is a theorem for any number of functionaries per step, any threshold and delegated "
+                            "steps at any depth (honest_chain_verifies, honestCheck_sound).")
 for _k, _t in ADDENDA.items():
+    CLAIMED[_k]["text"] = CLAIMED[_k]["text"] + " " + _t
+for _k, _t in ADDENDA3.items():
     CLAIMED[_k]["text"] = CLAIMED[_k]["text"] + " " + _t
 for _k, (_old, _new) in NOTE_REPLACEMENTS.items():
     if _old in CLAIMED[_k]["note"]:
